@@ -729,6 +729,232 @@ theorem permanentRetried_tick {env : Env} (hf : env.fixed = true) {s : State} (i
   simp [startsInStep]
   omega
 
+theorem running_of_not_mem (a : Nat) : ∀ h : Hist, a ∉ adapters h → running a h = false := by
+  intro h
+  induction h with
+  | nil => intro _; rfl
+  | cons it h ih =>
+    intro hn
+    cases it with
+    | op o => simp only [adapters] at hn; simpa [running] using ih hn
+    | start a' r =>
+      simp only [adapters, List.mem_cons, not_or] at hn
+      have : a' ≠ a := fun h => hn.1 h.symm
+      simpa [running, this] using ih hn.2
+    | stop a' =>
+      simp only [adapters, List.mem_cons, not_or] at hn
+      have : a' ≠ a := fun h => hn.1 h.symm
+      simpa [running, this] using ih hn.2
+
+/-! ### restarting a running adapter closes it once and starts it once -/
+
+theorem lookup_unique {env : Env} {reg : List Elem} {x : Elem}
+    (hn : reg.Pairwise (fun e e' => addrOf env e ≠ addrOf env e')) (hx : x ∈ reg) :
+    lookup env (addrOf env x) reg = some x := by
+  cases hl : lookup env (addrOf env x) reg with
+  | none => exact absurd rfl (lookup_none hl x hx)
+  | some e =>
+    obtain ⟨hea, l1, l2, hreg⟩ := lookup_some hl
+    rw [hreg] at hn hx
+    rcases mem_mid.mp hx with h | h
+    · rw [h]
+    · exact absurd hea.symm (pw_mid (fun _ _ h => Ne.symm h) hn x h)
+
+theorem lookup_none_of {env : Env} {addr : Nat} {reg : List Elem}
+    (h : ∀ y ∈ reg, addrOf env y ≠ addr) : lookup env addr reg = none := by
+  unfold lookup
+  rw [List.find?_eq_none]
+  intro y hy; simpa using h y hy
+
+theorem mem_adapters_of_running (a : Nat) (h : Hist) (hr : running a h = true) : a ∈ adapters h := by
+  by_cases hm : a ∈ adapters h
+  · exact hm
+  · rw [running_of_not_mem a h hm] at hr; cases hr
+
+/-- the model's refusal test, read off the log -/
+theorem refused_iff {env : Env} {l1 l2 : List Elem} {x : Elem} {h : Hist}
+    (g : G env (l1 ++ x :: l2) h) :
+    refused env (l1 ++ l2) x.conv = peerIsReceiver env.cfg x.conv h := by
+  have hne : ∀ y ∈ l1 ++ l2, y.conv ≠ x.conv := fun y hy =>
+    addr_ne_conv_ne (pw_mid (fun _ _ h => Ne.symm h) g.nodup y hy)
+  unfold refused peerIsReceiver
+  congr 1
+  rw [Bool.eq_iff_iff]
+  simp only [List.any_eq_true, Bool.and_eq_true, Elem.active, decide_eq_true_eq, beq_iff_eq,
+    bne_iff_ne, ne_eq]
+  constructor
+  · rintro ⟨y, hy, ⟨⟨hact, hrec⟩, heid⟩⟩
+    obtain ⟨_, _, h3, _⟩ := g.el y (mem_mid.mpr (.inr hy))
+    have hrun := h3.mp hact
+    exact ⟨y.conv, mem_adapters_of_running _ _ hrun, ⟨⟨⟨hne y hy, hrun⟩, hrec⟩, heid⟩⟩
+  · rintro ⟨r, _, ⟨⟨⟨hra, hrun⟩, hrec⟩, heid⟩⟩
+    obtain ⟨y, hy, rfl⟩ := g.runIn r hrun
+    obtain ⟨_, _, h3, _⟩ := g.el y hy
+    rcases mem_mid.mp hy with rfl | hy'
+    · exact absurd rfl hra
+    · exact ⟨y, hy', ⟨⟨h3.mpr hrun, hrec⟩, heid⟩⟩
+
+theorem restart_running {env : Env} (hf : env.fixed = true) {s : State} {a : Nat} (inv : Inv env s)
+    (hrun : running a s.hist = true) :
+    (peerIsReceiver env.cfg a s.hist || (env.budget == 0 && !(env.cfg a).permanent)) = true ∧
+        (restart env s a).hist = .stop a :: s.hist ∨
+    (peerIsReceiver env.cfg a s.hist || (env.budget == 0 && !(env.cfg a).permanent)) = false ∧
+        ∃ r, (restart env s a).hist = .start a r :: .stop a :: s.hist := by
+  obtain ⟨x, hx, hxa⟩ := inv.g.runIn a hrun
+  obtain ⟨_, h2, h3, _⟩ := inv.g.el x hx
+  have hact : x.ttl < 0 := h3.mpr (by rw [hxa]; exact hrun)
+  have hst := h2.mp hact
+  have hl : lookup env (env.cfg a).addr s.reg = some x := by
+    have := lookup_unique inv.g.nodup hx
+    simpa [addrOf, hxa] using this
+  obtain ⟨_, l1, l2, hreg⟩ := lookup_some hl
+  have g := inv.g
+  rw [hreg] at g
+  have hc : s.closed = false := by
+    cases hcl : s.closed
+    · rfl
+    · have := inv.closedEmpty hcl; rw [hreg] at this; simp at this
+  have hrm : remove env (env.cfg a).addr s.reg = l1 ++ l2 := by
+    have := remove_mid g.nodup
+    rw [hreg]; simpa [addrOf, hxa] using this
+  have hun : unregister env s a = { s with reg := l1 ++ l2, hist := .stop a :: s.hist } := by
+    unfold unregister
+    simp only [hl, hxa, ne_eq, not_true_eq_false, if_false, deactivate, hact, if_true, hst, hrm]
+  have hnone : lookup env (env.cfg a).addr (l1 ++ l2) = none := by
+    apply lookup_none_of
+    intro y hy
+    have := pw_mid (fun _ _ h => Ne.symm h) g.nodup y hy
+    simpa [addrOf, hxa] using this
+  have href := refused_iff g
+  rw [hxa] at href
+  unfold restart
+  simp only [hun, inv.np, Bool.false_eq_true, if_false, register, hc, hnone, href,
+    activate_eq env hf]
+  cases hpr : peerIsReceiver env.cfg a s.hist
+  · simp only [Bool.false_eq_true, if_false, Bool.false_or]
+    by_cases hb : env.budget = 0 ∧ (env.cfg a).permanent = false
+    · left
+      simp [hb.1, hb.2]
+    · right
+      have hcond : ¬ ((env.budget : Int) < 0 ∨ ((env.budget : Int) = 0 ∧ (env.cfg a).permanent = false)) := by
+        intro h
+        rcases h with h | h
+        · omega
+        · exact hb ⟨by omega, h.2⟩
+      simp only [hcond, if_false]
+      refine ⟨?_, env.script a (startCount a (.stop a :: s.hist)), ?_⟩
+      · cases hp : (env.cfg a).permanent
+        · have : env.budget ≠ 0 := fun h => hb ⟨h, hp⟩
+          simp [this]
+        · simp
+      · split <;> rfl
+  · left; simp
+
+/-! ### an operation only adds `Start`/`Close` events on top of its marker -/
+
+theorem activate_prev {env : Env} (hf : env.fixed = true) (e : Elem) (h : Hist) :
+    prev (activate env e h).hist = prev h := by
+  rw [activate_eq env hf]; split <;> simp [prev]
+
+theorem register_prev {env : Env} (hf : env.fixed = true) (s : State) (a : Nat) :
+    prev (register env s a).hist = prev s.hist := by
+  unfold register
+  repeat' split
+  all_goals first | rfl | exact activate_prev hf _ _ | (simp only []; split <;> exact activate_prev hf _ _)
+
+theorem deactivate_prev {env : Env} {e e' : Elem} {h h' : Hist}
+    (hd : deactivate env e h = some (e', h')) : prev h' = prev h := by
+  unfold deactivate at hd
+  split at hd
+  · split at hd
+    · simp only [Option.some.injEq, Prod.mk.injEq] at hd; rw [← hd.2]; simp [prev]
+    · cases hd
+  · simp only [Option.some.injEq, Prod.mk.injEq] at hd; rw [← hd.2]
+
+theorem unregister_prev {env : Env} (s : State) (a : Nat) :
+    prev (unregister env s a).hist = prev s.hist := by
+  unfold unregister
+  split
+  · rfl
+  · split
+    · rfl
+    · split
+      · rfl
+      · next heq => exact deactivate_prev heq
+
+theorem restart_prev {env : Env} (hf : env.fixed = true) (s : State) (a : Nat) :
+    prev (restart env s a).hist = prev s.hist := by
+  unfold restart
+  simp only []
+  split
+  · exact unregister_prev s a
+  · rw [register_prev hf, unregister_prev]
+
+theorem closeAll_prev {env : Env} : ∀ (es : List Elem) (h h' : Hist),
+    closeAll env es h = some h' → prev h' = prev h := by
+  intro es
+  induction es with
+  | nil => intro h h' heq; simp [closeAll] at heq; rw [heq]
+  | cons e es ih =>
+    intro h h' heq
+    unfold closeAll at heq
+    split at heq
+    · cases heq
+    · next hd => rw [ih _ _ heq, deactivate_prev hd]
+
+theorem prev_step {env : Env} (hf : env.fixed = true) (s : State) (o : Op) (hnp : s.panicked = false) :
+    prev (step env s o).hist = s.hist := by
+  unfold step
+  simp only [hnp, Bool.false_eq_true, if_false]
+  cases o with
+  | register a => rw [register_prev hf]; rfl
+  | unregister a => rw [unregister_prev]; rfl
+  | restart a => rw [restart_prev hf]; rfl
+  | tick =>
+    simp only [tick]
+    split
+    · rfl
+    · simp [tickList_prev hf, prev]
+  | peerDisappeared a =>
+    simp only
+    split
+    · rfl
+    · rw [restart_prev hf]; rfl
+  | close =>
+    simp only [close]
+    split
+    · rfl
+    · split
+      · rfl
+      · next h heq => simp only; rw [closeAll_prev _ _ _ heq]; rfl
+
+theorem restartRestarts_restart {env : Env} (hf : env.fixed = true) {s : State} (inv : Inv env s)
+    (o : Op) (a : Nat) (ho : o = .restart a ∨ o = .peerDisappeared a) (snd rcv : List Nat) :
+    restartRestarts env.cfg env.budget
+      ⟨o, (restart env { s with hist := .op o :: s.hist } a).hist, snd, rcv, .ok⟩ = true := by
+  have inv0 : Inv env { s with hist := .op o :: s.hist } :=
+    ⟨inv.g.mark o, inv.np, inv.closedEmpty, fun h => List.mem_cons_of_mem _ (inv.closedMark h)⟩
+  have hprev : prev (restart env { s with hist := .op o :: s.hist } a).hist = s.hist := by
+    rw [restart_prev hf]; rfl
+  have key : (!running a s.hist ||
+      (stopsInStep a (restart env { s with hist := .op o :: s.hist } a).hist == 1 &&
+        startsInStep a (restart env { s with hist := .op o :: s.hist } a).hist ==
+          (if (peerIsReceiver env.cfg a s.hist || (env.budget == 0 && !(env.cfg a).permanent)) = true
+            then 0 else 1))) = true := by
+    cases hrun : running a s.hist
+    · rfl
+    · have hrun0 : running a (.op o :: s.hist) = true := by simpa [running] using hrun
+      have hpi : peerIsReceiver env.cfg a (.op o :: s.hist) = peerIsReceiver env.cfg a s.hist := by
+        simp [peerIsReceiver, adapters, running]
+      rcases restart_running hf inv0 hrun0 with ⟨hc, hh⟩ | ⟨hc, r, hh⟩
+      · rw [hpi] at hc
+        simp only [hh, hc, if_true]
+        simp [stopsInStep, startsInStep]
+      · rw [hpi] at hc
+        simp only [hh, hc]
+        simp [stopsInStep, startsInStep]
+  rcases ho with rfl | rfl <;> simpa [restartRestarts, hprev] using key
+
 /-! ### every observation of every trace satisfies the Spec -/
 
 theorem step_close_closed {env : Env} {s : State} (hnp : s.panicked = false) :
@@ -755,8 +981,8 @@ theorem step_obs {env : Env} (hf : env.fixed = true) {s : State} (inv : Inv env 
     refine ⟨?_, fun _ => inv'⟩
     simp only [obsOf, inv'.np, Bool.false_eq_true, if_false, obsOk, noPanic, Bool.true_and,
       bne_self_eq_false, Bool.false_or, Bool.and_eq_true]
-    refine ⟨⟨⟨⟨⟨activeIffStarted_of_G inv'.g o, inv'.g.disc⟩, ?_⟩, budgetRespected_of_G inv'.g⟩, ?_⟩,
-      singleInstance_of_G inv'.g⟩
+    refine ⟨⟨⟨⟨⟨⟨activeIffStarted_of_G inv'.g o, inv'.g.disc⟩, ?_⟩, budgetRespected_of_G inv'.g⟩, ?_⟩,
+      singleInstance_of_G inv'.g⟩, ?_⟩
     · -- close stops everything
       simp only [closeStops, Bool.or_eq_true, Bool.not_eq_true', beq_eq_false_iff_ne]
       by_cases ho : o = .close
@@ -775,6 +1001,29 @@ theorem step_obs {env : Env} (hf : env.fixed = true) {s : State} (inv : Inv env 
           unfold step; simp [inv.np]
         rw [hs]; exact this
       · simp [permanentRetried, ho]
+    · cases o with
+      | restart a =>
+        have hs : (step env s (.restart a)).hist =
+            (restart env { s with hist := .op (.restart a) :: s.hist } a).hist := by
+          unfold step; simp [inv.np]
+        rw [hs]
+        exact restartRestarts_restart hf inv _ a (.inl rfl) _ _
+      | peerDisappeared a =>
+        by_cases hcl : s.closed = true
+        · have hs : (step env s (.peerDisappeared a)).hist = .op (.peerDisappeared a) :: s.hist := by
+            unfold step; simp [inv.np, hcl]
+          have hr : running a s.hist = false := by
+            cases hr : running a s.hist
+            · rfl
+            · obtain ⟨x, hx, _⟩ := inv.g.runIn a hr
+              rw [inv.closedEmpty hcl] at hx; cases hx
+          simp [restartRestarts, hs, prev, hr]
+        · have hs : (step env s (.peerDisappeared a)).hist =
+              (restart env { s with hist := .op (.peerDisappeared a) :: s.hist } a).hist := by
+            unfold step; simp [inv.np, hcl]
+          rw [hs]
+          exact restartRestarts_restart hf inv _ a (.inr rfl) _ _
+      | _ => rfl
 
 theorem runObs_ok {env : Env} (hf : env.fixed = true) :
     ∀ (ops : List Op) (s : State), Inv env s →
@@ -1070,23 +1319,6 @@ theorem run_single_close {env : Env} (hf : env.fixed = true) :
       rw [hco] at hcnt
       exact ih _ inv' (by rw [hcl]; exact hcnt)
 
-theorem running_of_not_mem (a : Nat) : ∀ h : Hist, a ∉ adapters h → running a h = false := by
-  intro h
-  induction h with
-  | nil => intro _; rfl
-  | cons it h ih =>
-    intro hn
-    cases it with
-    | op o => simp only [adapters] at hn; simpa [running] using ih hn
-    | start a' r =>
-      simp only [adapters, List.mem_cons, not_or] at hn
-      have : a' ≠ a := fun h => hn.1 h.symm
-      simpa [running, this] using ih hn.2
-    | stop a' =>
-      simp only [adapters, List.mem_cons, not_or] at hn
-      have : a' ≠ a := fun h => hn.1 h.symm
-      simpa [running, this] using ih hn.2
-
 theorem balanced_of_allStopped {h : Hist} (hd : discipline h = true) (hs : allStopped h = true)
     (a : Nat) : okStarts a h = stops a h := by
   have hr : running a h = false := by
@@ -1102,9 +1334,9 @@ theorem obsOk_clauses {cfg : Nat → Cfg} {b : Nat} {o : Obs} (h : obsOk cfg b o
     (hok : o.outcome = .ok) :
     activeIffStarted cfg o = true ∧ discipline o.hist = true ∧ closeStops o = true ∧
       budgetRespected cfg b o.hist = true ∧ permanentRetried cfg o = true ∧
-      singleInstance cfg o.hist = true := by
+      singleInstance cfg o.hist = true ∧ restartRestarts cfg b o = true := by
   simp only [obsOk, hok, bne_self_eq_false, Bool.false_or, Bool.and_eq_true] at h
-  obtain ⟨_, ⟨⟨⟨⟨h1, h2⟩, h3⟩, h4⟩, h5⟩, h6⟩ := h
-  exact ⟨h1, h2, h3, h4, h5, h6⟩
+  obtain ⟨_, ⟨⟨⟨⟨⟨h1, h2⟩, h3⟩, h4⟩, h5⟩, h6⟩, h7⟩ := h
+  exact ⟨h1, h2, h3, h4, h5, h6, h7⟩
 
 end Dtn7.ClaManager
